@@ -51,7 +51,8 @@ finally:
     sh('git -C /repo worktree remove --force %s' % wt)
 # run the checks against /repo with the patch applied
 if res.get('applies'):
-    r = sh('git -C /repo apply %s/patch.diff' % d)
+    MUT = os.environ.get('VERIF_REPO', '/repo')
+    r = sh('git -C %s apply %s/patch.diff' % (MUT, d))
     try:
         res['checks'] = {}
         for p in props:
@@ -60,5 +61,5 @@ if res.get('applies'):
             lines = [l for l in r.stdout.split('\n') if l.startswith('  [')]
             res['checks'][p] = dict(rc=r.returncode, violation=vio[:1], lines=[l[:300] for l in lines[:3]])
     finally:
-        sh('git -C /repo checkout -- .')
+        sh('git -C %s checkout -- .' % MUT)
 print(json.dumps(res, indent=1))
